@@ -192,6 +192,16 @@ class C08(Prop):
     def strategy(self, tier):
         return st.one_of(gen_case(), gen_case(), gen_case(), corpus_case())
 
+    def enumerated(self, tier):
+        # deterministic sweep: every corpus script x a fixed set of comment insertions (each style at three positions)
+        def op(style, at, i):
+            n = 3 if style == "multi" else 1
+            return {"style": style, "at": at, "text": ["zq%dx%d , ( todo ;" % (i, j) for j in range(n)], "close_own_line": at % 2 == 0, "flush": at % 3 == 0}
+        for i in range(len(universe.corpus())):
+            for k, at in enumerate((0, 2, 5, 9)):
+                styles = (WHOLE_STYLES + TRAIL_STYLES)[k::4]
+                yield {"src": "corpus", "item": i, "ops": [op(s, at + 3 * n, n) for n, s in enumerate(styles)]}
+
     def base_text(self, case):
         if case["src"] == "corpus":
             return universe.corpus()[case["item"]]["ddl"].replace("\r\n", "\n")
@@ -216,6 +226,7 @@ class C08(Prop):
                 return out
             kw = dict(it["ctor"], **it["run"])
             kw.pop("debug", None)
+            kw.pop("json_dump", None)
         base = self.base_text(case)
         base_lines = base.split("\n")
         lines, order, stats = apply_ops(base_lines, case["ops"], case["src"] == "corpus", case.get("_no_carve"))
